@@ -32,14 +32,14 @@ Proof.
   unfold terminal, all_enabled, enabled in T. cbn [thr] in T.
   apply app_eq_nil in T. destruct T as [T0 T]. apply app_eq_nil in T. destruct T as [T1 T2].
   assert (A : th0 s = []).
-  { pose proof (i_xw c s I) as I8. pose proof (i_ow0 c s I) as W0.
+  { pose proof (i_xw c s I) as I8. pose proof (i_ow0 c s I) as W0. pose proof (j_xw0 c s I) as X0.
     destruct (th0 s) as [|ins rest]; [reflexivity|].
-    destruct ins; cbn [cnt p_xw p_ow] in I8, W0; try discriminate; lia. }
+    destruct ins; cbn [cnt p_xw p_ow p_xw2] in I8, W0, X0; try discriminate; lia. }
   pose proof (i_park c s I) as I7. rewrite A in I7. cbn [cnt Nat.add] in I7.
   assert (B : th1 s = []).
-  { pose proof (i_ow1 c s I) as W1.
+  { pose proof (i_ow1 c s I) as W1. pose proof (j_xw1 c s I) as X1.
     destruct (th1 s) as [|ins rest]; [reflexivity|].
-    destruct ins; cbn [cnt p_xw p_ow] in I7, W1; try discriminate; try lia.
+    destruct ins; cbn [cnt p_xw p_ow p_xw2] in I7, W1, X1; try discriminate; try lia.
     destruct (parked s); [discriminate|]. cbn [b2n] in I7. specialize (I7 eq_refl). lia. }
   split; [exact A|]. split; [exact B|].
   destruct (th2 s) as [|ins rest] eqn:C; [reflexivity|]. exfalso.
@@ -47,8 +47,21 @@ Proof.
   - (* waits for the promise to be parked: it has been *)
     rewrite B in I7. cbn [cnt p_xw Nat.add] in I7.
     destruct (parked s); [discriminate|]. cbn [b2n] in I7. specialize (I7 eq_refl). lia.
+  - (* waits for the re-arming handler to park the second promise: the first completion has run *)
+    destruct I as [I1 I2 I3 I4 I5 I6 _ I8 I9 I10 I11 I12 Itok Iph IphB Iowc Ip4 Irp Ioht Iocc I13 Ioh Iop0 Idec Iow0 Iow1 Iow2 I14 I15 I16 I17 I18 I19 I20 I21 I22 I23 I24 I25 I26 I27 I28 I29 I30 I31 I32 I33 I34 I35 Jcfg J1 J2 J3 J20 J21 J4 J5 J6 J7 Jx0 Jx1 Jx2 Jxc].
+    unfold N in *. rewrite A, B, C in *.
+    assert (RS : cnt p_claim rest = 0 /\ cnt p_res rest = 0 /\ cnt p_dtk rest = 0 /\ cnt p_park2 rest = 0).
+    { destruct Jx2 as [W|[W|W]]; [inversion W; subst rest; cbn; auto|inversion W; subst rest; cbn; auto|cbn [cnt p_xw2] in W; lia]. }
+    destruct RS as (R1 & R2 & R3 & R4).
+    cbn [cnt p_claim p_res p_dtk p_park2 Nat.add] in *. rewrite R1, R2, R3, R4 in *.
+    assert (O : owner s = false) by (destruct (owner s); [cbn [b2n] in I1; lia|reflexivity]). rewrite O in *. cbn [b2n Nat.add] in *.
+    assert (S1 : slot s = SReady) by (destruct (slot s); cbn [rdy] in I2; try reflexivity; lia).
+    rewrite S1 in *. cbn [rdy sub Nat.add] in *.
+    assert (F : nfire s = 1) by lia. rewrite F in *. rewrite Nat.mul_1_r in *.
+    assert (RE1 : re c = 1) by (cbn [cnt p_xw2] in Jxc; unfold re in *; destruct (c_re c); lia).
+    destruct (parked2 s); [discriminate|]. cbn [b2n] in *. lia.
   - (* the late resolver: either the converter forwarded the promise or the outer future is ready *)
-    destruct I as [I1 I2 I3 I4 I5 I6 _ I8 I9 I10 I11 I12 Itok Iph IphB Iowc Ip4 Irp Ioht Iocc I13 Ioh Iop0 Idec Iow0 Iow1 Iow2 I14 I15 I16 I17 I18 I19 I20 I21 I22 I23 I24 I25 I26 I27 I28 I29 I30 I31 I32 I33 I34 I35].
+    destruct I as [I1 I2 I3 I4 I5 I6 _ I8 I9 I10 I11 I12 Itok Iph IphB Iowc Ip4 Irp Ioht Iocc I13 Ioh Iop0 Idec Iow0 Iow1 Iow2 I14 I15 I16 I17 I18 I19 I20 I21 I22 I23 I24 I25 I26 I27 I28 I29 I30 I31 I32 I33 I34 I35 Jcfg J1 J2 J3 J20 J21 J4 J5 J6 J7 Jx0 Jx1 Jx2 Jxc].
     unfold N in *. rewrite A, B, C in *.
     destruct Iow2 as [W|W]; [|cbn [cnt p_ow] in W; lia]. inversion W; subst rest. cbn [cnt p_claim p_res p_dtk p_cvA p_cvB p_cvC p_cvP p_cvD p_cvR p_ow p_oc Nat.add] in *.
     assert (O : owner s = false) by (destruct (owner s); [cbn [b2n] in I1; lia|reflexivity]). rewrite O in *. cbn [b2n Nat.add] in *.
@@ -76,13 +89,15 @@ Record Final (c : cfg) (s : st) : Prop := {
   f_ndeliv : ndeliv s = cv c;
   f_nconv : nconv s = if isv (payload s) then cv c else 0;
   f_outer : is_conv c = true -> oslot s = SReady /\ opayload s = expected c s;
-  f_oprom : oprom s = false
+  f_oprom : oprom s = false;
+  f_fired2 : nfire2 s = re c;
+  f_payload2 : payload2 s = out_of (kind_re c)
 }.
 
 Theorem terminal_final c s : valid c = true -> reachable c s -> terminal s -> Final c s.
 Proof.
   intros V R T. destruct (terminal_done c s V R T) as (A & B & C).
-  destruct (inv_reachable c s V R) as [I1 I2 I3 I4 I5 I6 I7 I8 I9 I10 I11 I12 Itok Iph IphB Iowc Ip4 Irp Ioht Iocc I13 Ioh Iop0 Idec Iow0 Iow1 Iow2 I14 I15 I16 I17 I18 I19 I20 I21 I22 I23 I24 I25 I26 I27 I28 I29 I30 I31 I32 I33 I34 I35].
+  destruct (inv_reachable c s V R) as [I1 I2 I3 I4 I5 I6 I7 I8 I9 I10 I11 I12 Itok Iph IphB Iowc Ip4 Irp Ioht Iocc I13 Ioh Iop0 Idec Iow0 Iow1 Iow2 I14 I15 I16 I17 I18 I19 I20 I21 I22 I23 I24 I25 I26 I27 I28 I29 I30 I31 I32 I33 I34 I35 Jcfg J1 J2 J3 J20 J21 J4 J5 J6 J7 Jx0 Jx1 Jx2 Jxc].
   unfold N in *. rewrite A, B, C in *. cbn [cnt Nat.add] in *.
   assert (O : owner s = false) by (destruct (owner s); [cbn [b2n] in I1; lia|reflexivity]).
   rewrite O in *. cbn [b2n Nat.add] in *.
@@ -101,6 +116,10 @@ Proof.
     lia.
   - destruct (isv (payload s)); lia.
   - intros Q. unfold cv in *. rewrite Q in *. cbn [b2n] in *. split; [apply OS; reflexivity|apply I17; lia].
+  - assert (O2 : owner2 s = false) by (destruct (owner2 s); [cbn [b2n] in J1; lia|reflexivity]). rewrite O2 in *. cbn [b2n Nat.add] in *.
+    assert (RE1 : re c <= 1) by (unfold re; destruct (c_re c); lia).
+    destruct (slot2 s); cbn [rdy sub] in *; lia.
+  - apply J3. destruct (owner2 s); [cbn [b2n] in J1; lia|reflexivity].
 Qed.
 
 (* the user callback is entered at most once in every reachable state ... *)
@@ -116,47 +135,75 @@ Qed.
 
 Definition ncb (s : st) : nat := length (filter is_cb (log s)).
 
-Lemma ncb_shape c s : valid c = true -> reachable c s -> ncb s = if atomic_cb c && Nat.eqb (nfire s) 1 then 1 else 0.
+Lemma ncb_shape c s : valid c = true -> reachable c s ->
+  ncb s = (if atomic_cb c && Nat.eqb (nfire s) 1 then 1 else 0) + (if Nat.eqb (nfire2 s) 1 then 1 else 0).
 Proof.
-  intros V R. destruct (loginv_reachable c s V R) as (t1 & t2 & t3 & L).
+  intros V R. destruct (loginv_reachable c s V R) as (t1 & t2 & t3 & t4 & L).
   unfold ncb. rewrite L, !filter_app, !app_length.
   destruct (Nat.eqb (nconv s) 1); [rewrite filter_cb_conv_log|]; cbn [filter length Nat.add];
   (destruct (Nat.eqb (ndeliv s) 1); cbn [filter is_cb snd length Nat.add]);
-  (destruct (atomic_cb c && Nat.eqb (nfire s) 1); [apply filter_cb_cb_log|reflexivity]).
+  (destruct (atomic_cb c && Nat.eqb (nfire s) 1); [rewrite filter_cb_cb_log|cbn [filter length]]);
+  (destruct (Nat.eqb (nfire2 s) 1); reflexivity).
 Qed.
 
-Theorem fires_at_most_once c s : valid c = true -> reachable c s -> ncb s <= 1.
-Proof. intros V R. rewrite (ncb_shape c s V R). destruct (atomic_cb c && Nat.eqb (nfire s) 1); lia. Qed.
-
-(* ... and exactly once when the scenario has run to completion (never zero, never twice) *)
-Theorem fires_exactly_once c s : valid c = true -> reachable c s -> terminal s ->
-  ncb s = b2n (has_cb (c_ad c)).
+(* at most one callback entry per awaited operation (a re-arming handler awaits two), in every reachable state *)
+Theorem fires_at_most_once c s : valid c = true -> reachable c s -> ncb s <= 1 + re c /\ nfire s <= 1 /\ nfire2 s <= re c.
 Proof.
-  intros V R T. rewrite (ncb_shape c s V R). rewrite (f_fired c s (terminal_final c s V R T)).
-  unfold atomic_cb. destruct (has_cb (c_ad c)); reflexivity.
+  intros V R. rewrite (ncb_shape c s V R).
+  pose proof (inv_reachable c s V R) as II. pose proof (i_fired c s II) as I6. pose proof (j_fired c s II) as J6.
+  pose proof (j_dtk c s II) as J4.
+  assert (NF : nfire s <= 1) by (destruct (slot s); cbn [rdy] in I6; lia).
+  assert (RE1 : re c * nfire s <= re c) by (unfold re; destruct (c_re c); lia).
+  assert (N2 : nfire2 s <= re c) by lia.
+  repeat split; try lia.
+  destruct (atomic_cb c && Nat.eqb (nfire s) 1); destruct (Nat.eqb (nfire2 s) 1) eqn:Q; try lia;
+    apply Nat.eqb_eq in Q; lia.
+Qed.
+
+(* ... and exactly once per awaited operation when the scenario has run to completion (never zero, never twice) *)
+Theorem fires_exactly_once c s : valid c = true -> reachable c s -> terminal s ->
+  ncb s = b2n (has_cb (c_ad c)) + re c.
+Proof.
+  intros V R T. rewrite (ncb_shape c s V R). pose proof (terminal_final c s V R T) as F.
+  rewrite (f_fired c s F), (f_fired2 c s F).
+  unfold atomic_cb, re. destruct (has_cb (c_ad c)); destruct (c_re c); reflexivity.
 Qed.
 
 (* every callback invocation sees exactly the outcome the source future holds, with the helper block allocated and
    not yet freed; that outcome is the one of the resolver that won the claim ... *)
 Theorem right_outcome c s t o al fr : valid c = true -> reachable c s ->
-  In (t, ECb o al fr) (log s) -> o = payload s /\ o = wout c s /\ al = hb c /\ fr = 0.
+  In (t, ECb o al fr) (log s) ->
+  ((o = payload s /\ o = wout c s) \/ (re c = 1 /\ o = payload2 s /\ o = out_of (kind_re c))) /\ al = hb c /\ fr = 0.
 Proof.
-  intros V R H. destruct (loginv_reachable c s V R) as (t1 & t2 & t3 & L). rewrite L in H.
+  intros V R H. destruct (loginv_reachable c s V R) as (t1 & t2 & t3 & t4 & L). rewrite L in H.
+  pose proof (inv_reachable c s V R) as II.
   apply in_app_or in H. destruct H as [H|H].
   { destruct (Nat.eqb (nconv s) 1); [|destruct H]. unfold conv_log in H.
     destruct (payload s); cbn [In] in H; try contradiction. destruct H as [H|[]]. discriminate. }
   apply in_app_or in H. destruct H as [H|H].
   { destruct (Nat.eqb (ndeliv s) 1); [|destruct H]. destruct H as [H|[]]. discriminate. }
-  destruct (atomic_cb c && Nat.eqb (nfire s) 1) eqn:Q; [|destruct H].
-  assert (P : payload s = wout c s).
-  { pose proof (inv_reachable c s V R) as II. pose proof (i_res c s II) as I2. pose proof (i_pay c s II) as I3. pose proof (i_fired c s II) as I6.
-    apply I3. apply andb_prop in Q. destruct Q as [_ Q]. apply Nat.eqb_eq in Q. rewrite Q in I6.
-    destruct (slot s); cbn [rdy] in *; try lia. destruct (owner s); [cbn [b2n] in I2; lia|reflexivity]. }
-  unfold cb_log in H. cbn [map app] in H.
-  destruct H as [H|[H|H]]; try discriminate.
-  - inversion H. subst. auto.
-  - destruct (has_functor (c_ad c)); [|destruct H]. cbn [map] in H. destruct H as [H|H]; [discriminate|].
-    destruct (has_sd (c_stor c)); [destruct H as [H|[]]|destruct H]; discriminate.
+  apply in_app_or in H. destruct H as [H|H].
+  - destruct (atomic_cb c && Nat.eqb (nfire s) 1) eqn:Q; [|destruct H].
+    assert (P : payload s = wout c s).
+    { pose proof (i_res c s II) as I2. pose proof (i_pay c s II) as I3. pose proof (i_fired c s II) as I6.
+      apply I3. apply andb_prop in Q. destruct Q as [_ Q]. apply Nat.eqb_eq in Q. rewrite Q in I6.
+      destruct (slot s); cbn [rdy] in *; try lia. destruct (owner s); [cbn [b2n] in I2; lia|reflexivity]. }
+    unfold cb_log in H. cbn [map app] in H.
+    destruct H as [H|[H|H]]; try discriminate.
+    + inversion H. subst. auto.
+    + destruct (has_functor (c_ad c)); [|destruct H]. cbn [map] in H. destruct H as [H|H]; [discriminate|].
+      destruct (has_sd (c_stor c)); [destruct H as [H|[]]|destruct H]; discriminate.
+  - destruct (Nat.eqb (nfire2 s) 1) eqn:Q; [|destruct H]. apply Nat.eqb_eq in Q.
+    pose proof (j_fired c s II) as J6. pose proof (j_res c s II) as J2. pose proof (j_pay c s II) as J3.
+    pose proof (j_dtk c s II) as J4. pose proof (j_cfg c s II) as Jcfg.
+    pose proof (i_fired c s II) as I6. assert (NF : nfire s <= 1) by (destruct (slot s); cbn [rdy] in I6; lia).
+    assert (RE1 : re c <= 1) by (unfold re; destruct (c_re c); lia).
+    assert (REN : re c * nfire s <= re c) by (unfold re; destruct (c_re c); lia).
+    assert (R1 : re c = 1) by lia.
+    assert (P2 : payload2 s = out_of (kind_re c)).
+    { apply J3. destruct (slot2 s); cbn [rdy] in *; try lia. destruct (owner2 s); [cbn [b2n] in J2; lia|reflexivity]. }
+    unfold cb2_log in H. destruct H as [H|[H|[]]]; [|discriminate]. inversion H. subst.
+    unfold hb. rewrite (Jcfg R1). cbn [has_helper b2n]. rewrite <- P2. auto.
 Qed.
 
 (* ... i.e. of the call that returned true: at most one call returns true; the competitor's call returned true iff it
@@ -188,7 +235,7 @@ Qed.
 (* the helper block is released at most once, never before the callback has returned, and exactly once at the end *)
 Theorem released_once c s : valid c = true -> reachable c s ->
   frees s <= allocs s /\ allocs s = hb c /\
-  (frees s >= 1 -> atomic_cb c = true -> exists pre t, log s = pre ++ cb_log c (payload s) t) /\
+  (frees s >= 1 -> atomic_cb c = true -> exists pre post t, log s = pre ++ cb_log c (payload s) t ++ post) /\
   (terminal s -> frees s = allocs s).
 Proof.
   intros V R. pose proof (inv_reachable c s V R) as II. pose proof (i_dtk c s II) as I4. pose proof (i_fired c s II) as I6. pose proof (i_alloc c s II) as I9. pose proof (i_free c s II) as I10.
@@ -196,7 +243,7 @@ Proof.
   repeat split.
   - rewrite I9. destruct (nfire s) as [|[|n]]; lia.
   - exact I9.
-  - intros F A. destruct (loginv_reachable c s V R) as (t1 & t2 & t3 & L).
+  - intros F A. destruct (loginv_reachable c s V R) as (t1 & t2 & t3 & t4 & L).
     assert (nfire s = 1) by (destruct (nfire s) as [|[|n]]; lia).
     rewrite H, A in L. cbn [Nat.eqb andb] in L. rewrite L, app_assoc. eauto.
   - intros T. exact (f_freed c s (terminal_final c s V R T)).
@@ -212,9 +259,11 @@ Proof.
   intros V C R T. destruct (terminal_final c s V R T) as [_ _ P _ F _ _ NR ND NC O _].
   destruct (O C) as [O1 O2]. unfold cv, expected in *. rewrite C in *. cbn [b2n] in *. rewrite <- P.
   repeat split; try assumption.
-  destruct (loginv_reachable c s V R) as (t1 & t2 & t3 & L).
-  rewrite ND, F in L. unfold atomic_cb, expected in L. unfold is_conv in C. destruct (c_ad c); try discriminate.
-  cbn [has_cb andb Nat.eqb] in L. rewrite app_nil_r in L.
+  destruct (loginv_reachable c s V R) as (t1 & t2 & t3 & t4 & L).
+  pose proof (terminal_final c s V R T) as FF. pose proof (j_cfg c s (inv_reachable c s V R)) as Jcfg.
+  rewrite ND, F, (f_fired2 c s FF) in L. unfold atomic_cb, expected in L. unfold is_conv in C. destruct (c_ad c) eqn:AD; try discriminate.
+  assert (RE0 : re c = 0) by (unfold re in *; destruct (c_re c); [specialize (Jcfg eq_refl); discriminate Jcfg|reflexivity]).
+  rewrite RE0 in L. cbn [has_cb andb Nat.eqb] in L. rewrite !app_nil_r in L.
   rewrite NC in L. exists t1, t2. rewrite L. unfold conv_log.
   destruct (payload s); cbn [isv Nat.eqb]; reflexivity.
 Qed.
@@ -298,12 +347,11 @@ Qed.
 
 Lemma weight_init c : valid c = true -> weight (init c) <= 90.
 Proof.
-  destruct c as [ad mode stor k k2 ct cd]. unfold valid. cbn [c_mode c_stor c_ad c_k2 is_mk].
+  destruct c as [ad mode stor k k2 rek ct cd]. unfold valid, weight, init, is_mk, is_conv, is_mode, reg_prog, mk_prog, res_prog.
+  cbn [c_mode c_stor c_ad c_k2 c_cb c_k c_re th0 th1 th2].
   intros V.
   destruct mode as [|[|[|[|m]]]]; try (cbn in V; rewrite ?andb_false_r in V; discriminate);
-  destruct ad; try (cbn in V; rewrite ?andb_false_r in V; discriminate);
-  destruct stor as [|[|[|[|[|st]]]]]; try (cbn in V; rewrite ?andb_false_r in V; discriminate);
-  destruct k2 as [kk|]; destruct k; cbn; try (destruct (Nat.eqb ct 4)); cbn; lia.
+  destruct ad; destruct k2 as [kk|]; destruct rek as [[rv|rx|]|]; destruct k; cbn; try (destruct (Nat.eqb ct 4)); cbn; lia.
 Qed.
 
 (* every schedule of every valid configuration ends, within 90 steps, in a terminal state *)
